@@ -14,8 +14,28 @@ FAULTS = ["continue", "save_continue", "save_crash_restore", "save_torn", "save_
           "container_restart"]
 
 
+def model_of(op):
+    """the stub that counts distinct evaluations: the integrand of Integration, the model of UncertaintyQuantification (whose
+    integrand is the moment function built on top of it); density estimation has none"""
+    m = getattr(op, "f_model", None)
+    if m is None or not hasattr(m, "seen"):
+        m = getattr(op, "f", None)
+    return m if hasattr(m, "seen") else None
+
+
+def flat(res):
+    """a result as a flat list of floats: Integration / UQ return a vector, density estimation a dict level vector -> surpluses"""
+    if isinstance(res, dict):
+        out = []
+        for k in sorted(res, key=lambda t: tuple(int(x) for x in t)):
+            out.append(float(len(res[k])))
+            out.extend(float(x) for x in np.asarray(res[k], dtype=float).ravel())
+        return out
+    return [float(x) for x in np.asarray(res, dtype=float).ravel()]
+
+
 def snapshot_of(sa, strategy, ret):
-    if strategy == "dimension_wise":
+    if strategy.startswith("dimension_wise"):
         st = [[(float(o.start).hex(), float(o.end).hex(), int(o.levels[0]), int(o.levels[1]), int(o.coarsening_level)) for o in
                sa.refinement.get_refinement_container_for_dim(d).get_objects()] for d in range(sa.dim)]
     elif strategy == "cell":
@@ -26,8 +46,8 @@ def snapshot_of(sa, strategy, ret):
                     for o in sa.refinement.get_objects())
     sch = sorted((tuple(int(x) for x in c.levelvector), float(c.coefficient)) for c in sa.scheme)
     return {"structure": json.loads(json.dumps(st)), "scheme": json.loads(json.dumps(sch)), "lmax": [int(x) for x in sa.lmax],
-            "result": [float(x) for x in ret[3]], "npoints": int(sa.get_total_num_points()),
-            "distinct_evals": len(sa.operation.f.seen)}
+            "result": flat(ret[3]), "npoints": int(sa.get_total_num_points()),
+            "distinct_evals": len(model_of(sa.operation).seen) if model_of(sa.operation) is not None else -1}
 
 
 def _restore_in_fork(path):
@@ -76,15 +96,15 @@ def query_sequence(inst, P, interp, clone=True):
         if interp:
             ask("interpolation")
         r, _ = c.evaluate_final_combi()
-        out.append(["final_combi"] + hexes(r))
+        out.append(["final_combi"] + [float(x).hex() for x in flat(r)])
         if interp:
             ask("interpolation_after_final_combi")
-        out.append(["result"] + hexes(c.operation.get_result()))
+        out.append(["result"] + [float(x).hex() for x in flat(c.operation.get_result())])
         out.append(["points", int(c.get_total_num_points())])
     return out
 
 
-def compare(ctx, sig, twin, got, what, skip=()):
+def compare(ctx, sig, twin, got, what, skip=(), rtol=None):
     for key in ("structure", "scheme", "lmax", "npoints", "distinct_evals"):
         if key in skip:
             continue
@@ -92,7 +112,7 @@ def compare(ctx, sig, twin, got, what, skip=()):
             ctx.violate("resume_" + key, sig, "%s: final %s differs from the uninterrupted run: %s vs %s" % (
                 what, key, json.dumps(got[key])[:300], json.dumps(twin[key])[:300]))
     x, y = np.array(got["result"]), np.array(twin["result"])
-    tol = 1e-11 * (1.0 + float(np.max(np.abs(y)))) * max(8, len(twin["scheme"]))
+    tol = (rtol or 1e-11) * (1.0 + (float(np.max(np.abs(y))) if y.size else 0.0)) * max(8, len(twin["scheme"]))
     if "result" not in skip and (x.shape != y.shape or not np.all(np.abs(x - y) <= tol)):
         ctx.violate("resume_result", sig, "%s: final result %s, uninterrupted run %s (tol %.1e)" % (what, x.tolist(), y.tolist(), tol))
     ctx.ok("resume_equals_twin")
@@ -108,7 +128,9 @@ class C14(Check):
     run_timeout_s = 300.0
     min_runs = 10
     real = ["SpatiallyAdaptivBase.continue_adaptive_refinement", "StandardCombi.save_to_file / restore_from_file (real dill)",
-            "SpatiallyAdaptiveSingleDimensions2", "SpatiallyAdaptiveExtendScheme", "refinement containers", "Integration", "Function cache",
+            "SpatiallyAdaptiveSingleDimensions2", "SpatiallyAdaptiveExtendScheme", "SpatiallyAdaptiveCellScheme", "refinement containers", "Integration", "Function cache",
+            "UncertaintyQuantification on GlobalTrapezoidalGridWeighted (dimension-wise)", "DensityEstimation with and without its reuse caches (dimension-wise)",
+            "GlobalLagrangeGrid / GlobalBSplineGrid / GlobalHighOrderGrid (dimension-wise, a quarter of those runs)",
             "real error estimators in a share of runs"]
     stub = ["file system (SimFS: in-memory, write faults torn/short/enospc/lost)", "integrand values", "error-estimator answers (keyed, without evaluation counter)",
             "clocks", "process crash = dropping the object graph (thorough tier: restore in a fresh interpreter from the bytes only)"]
@@ -118,7 +140,8 @@ class C14(Check):
             "continuation through a new driver call handed the old container, restore in a fresh interpreter (thorough)}; a quarter of the "
             "first legs ask for re-evaluation at their end; run to the final limit and compare structure, scheme, result and point count with the twin. "
             "A state is (configuration class, crash point, fault kind, final structure); distinct_nontrivial counts distinct such tuples")
-    expected_probes = ["crash_point", "restored_equals_saved"]
+    expected_probes = ["crash_point", "restored_equals_saved", "strategy_dimension_wise", "strategy_dimension_wise_other_grid", "strategy_extend_split",
+                       "strategy_cell", "strategy_dimension_wise_uq", "strategy_dimension_wise_de"]
     assumptions = ["pickle has no integrity check and no property promises one: bit flips inside a successfully written file are not injected",
                    "a failed save or a failed restore must fail loudly and leave the live instance untouched"]
     excluded_configs = ["cell strategy: driven for stop / save / restore / continue, but without the interpolation query (not offered by this strategy)",
@@ -132,7 +155,7 @@ class C14(Check):
 
     def gen(self, rk, tier, idx):
         r = stream(rk, "cfg")
-        strategy = r.choice(["dimension_wise"] * 6 + ["extend_split"] * 4 + ["cell", "standard"])
+        strategy = r.choice(["dimension_wise"] * 6 + ["extend_split"] * 4 + ["cell", "standard"] + ["dimension_wise_uq"] + ["dimension_wise_de"] * 2)
         if strategy == "standard":
             from engines import combi_drivers as CD
             cfg = CD.gen_standard_cfg(r, tier)
@@ -142,9 +165,25 @@ class C14(Check):
         if strategy == "cell":
             cfg = ES.gen_cell_cfg(r, tier)
             cfg["max_leaves"] = 10 ** 6
+        elif strategy == "dimension_wise_uq":
+            # other operations under the same driver: uncertainty quantification on the weighted grid (distribution objects with
+            # closures, moment functions stacked on the model) ...
+            from engines import uq_sim as UQ
+            cfg = UQ.C15().gen(rk, tier, idx)["config"]
+            cfg["max_intervals"] = 10 ** 6
+        elif strategy == "dimension_wise_de":
+            # ... and density estimation, whose reuse caches (old matrices, right-hand sides, grid coordinates, data bins) are
+            # state that has to survive a save / restore and a continuation
+            from engines import de_reuse_sim as DE
+            cfg = DE.C17().gen(rk, tier, idx)["config"]
+            cfg.update(numeric=False, big=False, max_intervals=10 ** 6, reuse=r.random() < 0.7, a=[0.0] * cfg["dim"], b=[1.0] * cfg["dim"])
+            if cfg["lmax"] > 2 and cfg["dim"] > 2:
+                cfg["lmax"] = 2
         elif strategy == "dimension_wise":
             cfg = DS.gen_cfg(r, tier, dims=(1, 2, 2, 2, 3))
             cfg["max_intervals"] = 10 ** 6
+            if r.random() < 0.25:      # hierarchical / high-order global grid families that run in this strategy here
+                cfg["grid"] = r.choice(DS.GLOBAL_GRIDS[1:])
         else:
             cfg = ES.gen_cfg(r, tier)
             cfg["max_leaves"] = 10 ** 6
@@ -156,6 +195,10 @@ class C14(Check):
                 cfg["single_dim"] = False
         cfg.update(strategy=strategy, use_epoch=False, max_points=10 ** 6, estimator=r.choice(["keyed", "keyed", "real"]), clock_jumps=r.random() < 0.3)
         cfg["final"] = r.choice([20, 40, 70, 110, 160] if tier == "quick" else [40, 70, 110, 160, 250, 400])
+        if strategy in ("dimension_wise_de", "dimension_wise_uq"):
+            cfg["estimator"] = "keyed"
+        if strategy == "dimension_wise_de":
+            cfg["final"] = r.choice([20, 40, 70, 110])
         cfg["fault_weights"] = {f: r.choice([0, 1, 1, 2]) for f in FAULTS if f != "child_restore"}
         cfg["fault_weights"]["child_restore"] = (1 if tier == "thorough" else 0)
         if not any(cfg["fault_weights"].values()):
@@ -173,7 +216,7 @@ class C14(Check):
             if c["dim"] > 1:
                 n = copy.deepcopy(s); n["config"].update(dim=c["dim"] - 1, a=c["a"][:-1], b=c["b"][:-1]); yield n
             return
-        gen = DS.simplify_cfg(s) if st == "dimension_wise" else ES.simplify_cfg(s)
+        gen = DS.simplify_cfg(s) if st == "dimension_wise" else (ES.simplify_cfg(s) if st in ("extend_split", "cell") else [])
         for c in gen:
             yield c
         for v in (20, 40, 70):
@@ -188,10 +231,22 @@ class C14(Check):
                 n = copy.deepcopy(s); n["config"]["fault_weights"] = {g: (1 if g == f else 0) for g in FAULTS}; yield n
 
     def make(self, cfg, rk, ctx):
-        cls = {"dimension_wise": DS.DimwiseSim, "cell": ES.CellSim}.get(cfg["strategy"], ES.ExtendSplitSim)
-        sim = cls(cfg, rk, ctx, [])
+        st = cfg["strategy"]
+        if st == "dimension_wise_uq":
+            from engines import uq_sim as UQ
+            sim = UQ.UQSim(cfg, rk, ctx, [])
+        elif st == "dimension_wise_de":
+            from engines import de_reuse_sim as DE
+            sim = DE.DESim(cfg, rk, ctx, cfg["reuse"])
+            sim.record = False
+        else:
+            cls = {"dimension_wise": DS.DimwiseSim, "cell": ES.CellSim}.get(st, ES.ExtendSplitSim)
+            sim = cls(cfg, rk, ctx, [])
         sim.eval_cap = 150
         sim.build()
+        if st in ("dimension_wise_uq", "dimension_wise_de"):
+            ctx.exc_sig = dict(getattr(ctx, "exc_sig", None) or {}, strategy=st)
+            sim.too_big = lambda: False
         return sim
 
     def run_to(self, sim, limit, first=True, reevaluate=False, container=None):
@@ -303,6 +358,7 @@ class C14(Check):
         if st == "standard":
             return self.execute_standard(cfg, rk, ctx)
         final = cfg["final"]
+        ctx.probe("strategy_" + st + ("" if cfg.get("grid") in (None, "TrapezoidalGrid", "GlobalTrapezoidalGrid") else "_other_grid"))
         twin_sim = self.make(cfg, rk, ctx)
         ret = self.run_to(twin_sim, final)
         twin = snapshot_of(twin_sim.sa, st, ret)
@@ -339,7 +395,7 @@ class C14(Check):
         if reeval:
             sig["first_leg_reevaluated"] = True
             ctx.fault("reevaluate_at_end")
-            if len(sim.sa.operation.f.seen) != N[k]:
+            if model_of(sim.sa.operation) is not None and len(model_of(sim.sa.operation).seen) != N[k]:
                 # the from-scratch evaluation touched points the incremental one never used (observed: extend-split coarsening
                 # version 2): the point count, which the limits are expressed in, has moved, so the uninterrupted twin is no
                 # reference for this continuation (the statement is about stop / continue, not about re-evaluation)
@@ -351,7 +407,10 @@ class C14(Check):
         sa = sim.sa
         path = "mem://checkpoint" if cfg.get("reuse_path") else "mem://c14-%d" % k
         a, b = cfg["a"], cfg["b"]
-        P = query_points(rk, a, b, 5)
+        import math
+        qa = [x if math.isfinite(x) else (y - 4.0 if math.isfinite(y) else -2.0) for x, y in zip(a, b)]
+        qb = [y if math.isfinite(y) else (x + 4.0 if math.isfinite(x) else 2.0) for x, y in zip(a, b)]
+        P = query_points(rk, qa, qb, 5)
         # __call__ raises for extend-split without boundary points (known finding of C07) and is not supported on grids
         # without points on the area boundaries (Gauss-Legendre); the restored-equals-saved clause then compares result and counts
         interp = st != "cell" and not (st == "extend_split" and (not cfg["boundary"] or cfg.get("grid", "TrapezoidalGrid") not in ("TrapezoidalGrid", "LagrangeGrid", "LagrangeGrid2")))
@@ -379,7 +438,7 @@ class C14(Check):
             if path not in seams.FS.files or not seams.FS.files[path]:
                 ctx.violate("save_writes_file", sig, "%s: save_to_file reported success but no bytes are stored" % what)
             if kind != "save_continue":
-                before_res = np.array(sa.operation.get_result(), dtype=float).copy()
+                before_res = np.array(flat(sa.operation.get_result()), dtype=float)
                 before_n = int(sa.get_total_num_points())
                 before_vals = call(sa)      # asked on the live saved instance, which is dropped right afterwards
                 data = seams.FS.files[path]
@@ -390,12 +449,12 @@ class C14(Check):
                 ctx.fault("crash_restore")
                 if kind == "child_restore":
                     ctx.fault("restore_in_fresh_interpreter")
-                    got, vals = self.child(cfg, rk, data, final, st, interp)
+                    got, vals = self.child(dict(cfg, a=qa, b=qb), rk, data, final, st, interp)
                     if before_vals != vals:
                         ctx.violate("restored_equals_saved", sig, "%s: answers of the instance restored in a fresh interpreter differ from the saved one: %s vs %s" % (
                             what, [q[0] for q, w in zip(vals, before_vals) if q != w], [w[0] for q, w in zip(vals, before_vals) if q != w]))
                     ctx.probe("restored_equals_saved")
-                    compare(ctx, sig, twin, got, what)
+                    compare(ctx, sig, twin, got, what, rtol=1e-8 if st == "dimension_wise_de" else None)
                     ctx.state((st, k, kind, json.dumps(got["structure"])[:2000]))
                     return
                 import sparseSpACE.StandardCombi as SC
@@ -405,14 +464,14 @@ class C14(Check):
                     sa3 = SC.StandardCombi.restore_from_file(path)
                 after_vals = call(sa3)
                 del sa3
-                if not (before_vals == after_vals and np.array_equal(before_res, np.array(sa2.operation.get_result(), dtype=float))
+                if not (before_vals == after_vals and np.array_equal(before_res, np.array(flat(sa2.operation.get_result()), dtype=float))
                         and before_n == int(sa2.get_total_num_points())):
                     diff = [q[0] for q, w in zip(after_vals, before_vals) if q != w]
                     ctx.violate("restored_equals_saved", sig, "%s: restored instance differs from the saved one in %s: %s vs %s, result %s vs %s, points %d vs %d" % (
                         what, diff, [q for q in after_vals if q[0] in diff][:2], [q for q in before_vals if q[0] in diff][:2],
-                        list(sa2.operation.get_result()), before_res.tolist(), int(sa2.get_total_num_points()), before_n))
+                        flat(sa2.operation.get_result())[:8], before_res.tolist()[:8], int(sa2.get_total_num_points()), before_n))
                 ctx.probe("restored_equals_saved")
-                sim.sa, sim.op, sim.f, sim.err = sa2, sa2.operation, sa2.operation.f, sa2.errorEstimator
+                sim.sa, sim.op, sim.f, sim.err = sa2, sa2.operation, model_of(sa2.operation), sa2.errorEstimator
         else:   # write faults: the live instance must be untouched, failure must be loud
             fk = kind[len("save_"):]
             n = int(H(rk, "cut", k) * 4000)
@@ -457,7 +516,9 @@ class C14(Check):
             # and maximum levels are still compared
             skip = ("npoints", "distinct_evals", "result")
             ctx.probe("reevaluation_evaluated_further_points")
-        compare(ctx, sig, twin, got, what, skip=skip)
+        # density estimation solves linear systems: a continued run re-evaluates on entry with warm caches, the surpluses agree up
+        # to the rounding the solves amplify (same bound as the cache-transparency check uses)
+        compare(ctx, sig, twin, got, what, skip=skip, rtol=1e-8 if st == "dimension_wise_de" else None)
         ctx.state((st, k, kind, json.dumps(got["structure"])[:2000]))
 
     def child(self, cfg, rk, data, final, st, interp=True):
